@@ -349,6 +349,21 @@ def function_call(tree):
         raise Skip('FunctionCall.__init__: `self._type_vars = ...` / `self._get_type_vars = lambda: self._type_vars` not found')
     prop = find_func(tree, 'type_vars', cls='FunctionCall')
     body = [s for s in prop.body if not (isinstance(s, ast.Expr) and isinstance(s.value, ast.Constant))]
+    # `if self.<cache> is None: <resolve>; self.<cache> = res` / `return self.<cache>`: the store is resolved once per call
+    once = False
+    if len(body) == 2 and isinstance(body[0], ast.If) and not body[0].orelse and isinstance(body[1], ast.Return) \
+            and isinstance(body[0].test, ast.Compare) and len(body[0].test.ops) == 1 and isinstance(body[0].test.ops[0], ast.Is) \
+            and isinstance(body[0].test.comparators[0], ast.Constant) and body[0].test.comparators[0].value is None \
+            and isinstance(body[0].test.left, ast.Attribute) and canon(body[0].test.left.value) == 'self':
+        cache = canon(body[0].test.left)
+        inner = list(body[0].body)
+        if not (canon(body[1].value) == cache and inner and isinstance(inner[-1], ast.Assign) and canon(inner[-1].targets[0]) == cache
+                and isinstance(inner[-1].value, ast.Name)):
+            raise Skip('FunctionCall.type_vars: cache has an unknown shape')
+        if not any(isinstance(s, ast.Assign) and canon(s.targets[0]) == cache and canon(s.value) == 'None' for s in init.body):
+            raise Skip('FunctionCall.__init__: the cache is not reset per call')
+        once = True
+        body = inner[:-1] + [ast.Return(value=inner[-1].value)]
     switch = False
     if body and isinstance(body[0], ast.If) and canon(body[0].test) == 'hasattr(self._instance, TYPE_VAR_METHOD_NAME)':
         b = body[0]
@@ -374,7 +389,7 @@ def function_call(tree):
             kw = {k.arg: k.value for k in n.keywords}
             if 'type_vars' not in kw or canon(kw['type_vars']) != 'self.type_vars':
                 raise Skip('FunctionCall: a check is not handed self.type_vars')
-    return {'fresh': fresh, 'switch': switch}
+    return {'fresh': fresh, 'switch': switch, 'once': once}
 
 
 # ------------------------------------------------------------------ pedantic_class accessor
@@ -420,6 +435,7 @@ def accessor(tree):
         raise Skip('accessor: generic arm does not store a `{**a, **b, ...}` merge')
     owner_of(stmts[0].value)
     merge = []
+    only_params = False
     SELF = '{TYPE_VAR_SELF: cls}'
     for v in stmts[0].value.args[2].values:
         node = gen_aliases.get(v.id) if isinstance(v, ast.Name) else v
@@ -429,6 +445,29 @@ def accessor(tree):
                 and canon(node.args[2]) in ('dict()', '{}'):
             owner_of(node)
             merge.append('fifo')
+        elif isinstance(node, ast.DictComp):
+            # `{k: v for k, v in getattr(self, ATTR, dict()).items() if k in <type parameters of the class>}`
+            g = node.generators
+            if not (len(g) == 1 and isinstance(g[0].target, ast.Tuple) and len(g[0].target.elts) == 2 and len(g[0].ifs) == 1
+                    and canon(node.key) == canon(g[0].target.elts[0]) and canon(node.value) == canon(g[0].target.elts[1])
+                    and isinstance(g[0].iter, ast.Call) and isinstance(g[0].iter.func, ast.Attribute) and g[0].iter.func.attr == 'items'
+                    and not g[0].iter.args):
+                raise Skip('accessor: unknown comprehension over the stored dict')
+            src_ = g[0].iter.func.value
+            if not (isinstance(src_, ast.Call) and canon(src_.func) == 'getattr' and len(src_.args) == 3 and canon(src_.args[1]) == 'TYPE_VAR_ATTR_NAME'
+                    and canon(src_.args[2]) in ('dict()', '{}')):
+                raise Skip('accessor: the comprehension does not read the stored dict')
+            owner_of(src_)
+            cond = g[0].ifs[0]
+            if not (isinstance(cond, ast.Compare) and len(cond.ops) == 1 and isinstance(cond.ops[0], ast.In) and canon(cond.left) == canon(node.key)):
+                raise Skip('accessor: unknown filter on the stored dict')
+            params = cond.comparators[0]
+            params = gen_aliases.get(params.id, params) if isinstance(params, ast.Name) else params
+            if canon(params) not in (f"getattr(type({me}), '__parameters__', ())", f"type({me}).__parameters__", f"{me}.__class__.__parameters__",
+                                     f"getattr({me}.__class__, '__parameters__', ())"):
+                raise Skip('accessor: the stored dict is filtered by something else than the type parameters of the class')
+            merge.append('fifo')
+            only_params = True
         elif canon(node) in (f'check_instance_of_generic_class_and_get_type_vars(instance={me})', f'check_instance_of_generic_class_and_get_type_vars({me})'):
             merge.append('generics')
         elif canon(node) == SELF:
@@ -452,7 +491,7 @@ def accessor(tree):
     owner_of(ret.value)
     if len(owners) != 1:
         raise Skip('accessor: attribute is read and written on different objects')
-    return {'merge': merge, 'nonGenericFresh': non_generic_fresh, 'storeOnInstance': owners == {'instance'}}
+    return {'merge': merge, 'nonGenericFresh': non_generic_fresh, 'storeOnInstance': owners == {'instance'}, 'onlyParams': only_params}
 
 
 def generics_from_orig_class(tree):
@@ -516,6 +555,8 @@ def unionSingleUnboundChecked : Bool := {lean_bool(un['singleUnboundChecked'])}
 def perCallFreshMap : Bool := {lean_bool(fc['fresh'])}
 /-- `FunctionCall.type_vars`: `if hasattr(self._instance, TYPE_VAR_METHOD_NAME):` switches to the per-instance accessor -/
 def instanceAccessorSwitch : Bool := {lean_bool(fc['switch'])}
+/-- `FunctionCall.type_vars` resolves the store once per call and hands the same dict to every check of the call -/
+def resolveOncePerCall : Bool := {lean_bool(fc['once'])}
 
 /-- what the per-instance accessor of `pedantic_class` merges for a generic instance, in `{{**a, **b, **c}}` order -/
 inductive Src where
@@ -524,6 +565,8 @@ inductive Src where
   | self       -- `{{TYPE_VAR_SELF: cls}}`
 deriving DecidableEq, Repr
 def genericMergeOrder : List Src := [{merge}]
+/-- of the stored dict only the type parameters of the class are carried over (`if k in type(self).__parameters__`) -/
+def fifoOnlyClassParams : Bool := {lean_bool(ac['onlyParams'])}
 /-- for an instance of a non-generic class the attribute is overwritten with a fresh `{{TYPE_VAR_SELF: cls}}` -/
 def nonGenericFresh : Bool := {lean_bool(ac['nonGenericFresh'])}
 /-- the attribute is read from and written to the instance (`self`), not the class -/
